@@ -454,6 +454,37 @@ def formula_scan(fn: ast.FunctionDef, skip: list) -> str:
     return out + "  " + scan
 
 
+def children_loop(fn: ast.FunctionDef) -> str:
+    """`ParameterNodeAtInstant.__init__`: `for NAME, CHILD in node.children.items(): X = CHILD._get_at_instant(instant_str);
+    if X is not None: self.add_child(NAME, X)` -> a `filterMap` over the children in dict order.  `atI` = `_get_at_instant`."""
+    loops = [s for s in fn.body if isinstance(s, ast.For)]
+    others = [s for s in fn.body if not isinstance(s, ast.For) and not (isinstance(s, ast.Expr) and isinstance(s.value, ast.Constant))]
+    for s in others:                       # the technical attributes: plain assignments to `self._…`
+        if not (isinstance(s, ast.Assign) and len(s.targets) == 1 and (_attr_path(s.targets[0]) or "").startswith("self._")):
+            raise NotTranslatable(f"unexpected statement `{ast.unparse(s)[:60]}`")
+        if _attr_path(s.targets[0]) == "self._children" and ast.unparse(s.value) != "{}":
+            raise NotTranslatable("`_children` does not start empty")
+    if len(loops) != 1:
+        raise NotTranslatable("not exactly one loop")
+    loop = loops[0]
+    if ast.unparse(loop.iter) != "node.children.items()" or loop.orelse:
+        raise NotTranslatable(f"iterates over `{ast.unparse(loop.iter)[:40]}`")
+    if not (isinstance(loop.target, ast.Tuple) and len(loop.target.elts) == 2 and all(isinstance(e, ast.Name) for e in loop.target.elts)):
+        raise NotTranslatable("loop target is not `name, child`")
+    k, c = (e.id for e in loop.target.elts)
+    if len(loop.body) != 2 or not isinstance(loop.body[0], ast.Assign) or not isinstance(loop.body[1], ast.If):
+        raise NotTranslatable("loop body is not `X = …; if …:`")
+    asg, test = loop.body
+    if len(asg.targets) != 1 or not isinstance(asg.targets[0], ast.Name) or ast.unparse(asg.value) != f"{c}._get_at_instant(instant_str)":
+        raise NotTranslatable("the child is not read with `_get_at_instant(instant_str)`")
+    x = asg.targets[0].id
+    if ast.unparse(test.test) != f"{x} is not None" or test.orelse:
+        raise NotTranslatable(f"the test is `{ast.unparse(test.test)[:40]}`")
+    if len(test.body) != 1 or ast.unparse(test.body[0]) != f"self.add_child({k}, {x})":
+        raise NotTranslatable("the `if` does not `add_child(name, value)`")
+    return ("  cs.filterMap (fun kc => match atI kc.2 d with\n    | some s => some (kc.1, s)\n    | none => none)")
+
+
 def located_test(fn: ast.FunctionDef, tr: Tr, marker: str) -> str:
     """the test of the one `if … : raise` whose source mentions `marker`, wherever it is nested in the function"""
     found = [n for n in ast.walk(fn) if isinstance(n, ast.If) and marker in ast.unparse(n.test) and not n.orelse
@@ -567,6 +598,10 @@ SPECS = [
     dict(name="parameter_get_at_instant", module="GeneratedParam", file="openfisca_core/parameters/parameter.py", cls="Parameter",
          func="_get_at_instant", kind="firstmatch", params="{V : Type} (l : List (OFCore.Param.Entry V)) (d : Int)", typ="Option V",
          fallback="OFCore.Param.pget l d"),
+    dict(name="node_at_instant_children", module="GeneratedParam", file="openfisca_core/parameters/parameter_node_at_instant.py",
+         cls="ParameterNodeAtInstant", func="__init__", kind="childrenloop",
+         params="{C S : Type} (atI : C → Int → Option S) (cs : List (String × C)) (d : Int)", typ="List (String × S)",
+         fallback="cs.filterMap (fun kc => match atI kc.2 d with\n    | some s => some (kc.1, s)\n    | none => none)"),
     dict(name="checkForCycle", module="GeneratedEngine", file=SIM, cls="Simulation", func="_check_for_cycle", kind="classes",
          classes={"CycleError": 1, "SpiralError": 2},
          vocab={"variable": ("v", "varname"), "period": ("p", "pval"), "self.max_spiral_loops": ("msl", "nat")},
@@ -632,8 +667,8 @@ TIED_TO = {
     "calculateDivide_period": ["C03"], "calculateDivide_denominator": ["C03"],
     "period_size_in_years": ["C04"], "period_size_in_months": ["C04"], "period_size_in_days": ["C04"], "period_size_in_weeks": ["C04"],
     "period_size_in_weekdays": ["C04"], "period_get_subperiods": ["C04", "C03"], "period_text_finer_refused": ["C05"],
-    "holderSet_raises": ["C03", "C16"], "holderSetInput_refuses": ["C16"], "parameter_get_at_instant": ["C06"],
-    "checkForCycle": ["C01", "C02"], "rate_add_bracket": ["C08", "C09"], "amount_add_bracket": ["C08", "C09"],
+    "holderSet_raises": ["C03", "C16"], "holderSetInput_refuses": ["C16"], "parameter_get_at_instant": ["C06"], "node_at_instant_children": ["C06"],
+    "checkForCycle": ["C01", "C02"], "variable_get_formula": ["C01"], "rate_add_bracket": ["C08", "C09"], "amount_add_bracket": ["C08", "C09"],
 }
 
 
@@ -717,6 +752,11 @@ def translate(repo: str, module: str = "GeneratedGuards") -> tuple[str, dict]:
                 typ = sp["typ"]
                 doc = (f"`{sp['cls']}.{sp['func']}` ({sp['file']}): the `return None` guards on `self.formulas` / `self.end`, then the first-match "
                        "scan of the SortedDict's keys; `l` = its items in ascending key order, `o` = the instant, `en` = the `end` attribute")
+            elif sp["kind"] == "childrenloop":
+                body = children_loop(fn)
+                typ = sp["typ"]
+                doc = (f"`{sp['cls']}.{sp['func']}` ({sp['file']}): the loop over `node.children.items()` — each child read with "
+                       "`_get_at_instant` (`atI`), kept under its name when the result is not None, in dict order")
             elif sp["kind"] == "dispatch":
                 chain = dispatch_chain(fn, tr, sp["leaf"])
                 body = _dispatch_to_lean(chain)
